@@ -207,10 +207,15 @@ class Gfa(Lines,GraphOperations,RGFA):
                               "Parsing file {}".format(filename)+
                               " containing {} lines".format(linecount))
     with open(filename) as f:
-      for line in f:
-        self.add_line(line.rstrip('\r\n'))
-        if self._progress:
-          self._progress_log("read_file")
+      try:
+        for line in f:
+          self.add_line(line.rstrip('\r\n'))
+          if self._progress:
+            self._progress_log("read_file")
+      except UnicodeDecodeError as err:
+        raise gfapy.FormatError(
+          "The file {} cannot be decoded as text\n".format(filename)+
+          "({})".format(err)) from err
     self.process_line_queue()
     if self._progress:
       self._progress_log_end("read_file")
